@@ -348,12 +348,20 @@ type LFCase struct {
 	DID     string `json:"did"`
 	Resolve bool   `json:"resolve"`
 	Note    string `json:"note"`
+	// Warm, if set, is a DID the same long-lived handler resolves first (outcome not judged): the genuine long-form
+	// DID the alteration was derived from
+	Warm string `json:"warm,omitempty"`
 }
 
 func evalLF(c *LFCase) (string, string) {
 	h := handlerFor(uint(c.Code))
 	var err error
 	var rr *document.ResolutionResult
+	if c.Warm != "" {
+		if p := ev.Catch(func() { _, _ = h.ResolveDocument(c.Warm) }); p != "" {
+			return "C08/long-form-panic", "ResolveDocument panicked on " + ev.Trunc(c.Warm, 300) + ": " + p
+		}
+	}
 	if p := ev.Catch(func() { rr, err = h.ResolveDocument(c.DID) }); p != "" {
 		return "C08/long-form-panic", "ResolveDocument panicked on " + ev.Trunc(c.DID, 300) + ": " + p
 	}
@@ -380,7 +388,7 @@ func replayLF(raw json.RawMessage) (string, string) {
 const b64alphabet = "ABCDEFGHIJKLMNOPQRSTUVWXYZabcdefghijklmnopqrstuvwxyz0123456789-_"
 
 func TestLongFormAlterations(t *testing.T) {
-	ev.Rule(chkLongForm, "rapid: for a drawn create request, the canonical long-form DID (control: must resolve on an empty store) and alterations: a single character of the encoded segment substituted (drawn position and replacement; separately the last character, whose unused trailing bits make several spellings decode to the same bytes), a CR / LF / space / = / tab inserted at a drawn position, a single character of the suffix substituted, one member of suffix data or delta altered / removed / added and re-encoded canonically, the unchanged value in a non-canonical encoding (member order, whitespace, escapes), suffix of another create; oracle: resolves iff canonical, suffix == hash(suffix data), delta matches delta hash; non-trivial = an alteration")
+	ev.Rule(chkLongForm, "rapid: for a drawn create request, the canonical long-form DID (control: must resolve on an empty store) and alterations (one time in two resolved right after the same long-lived handler resolved the genuine DID): a single character of the encoded segment substituted (drawn position and replacement; separately the last character, whose unused trailing bits make several spellings decode to the same bytes), a CR / LF / space / = / tab inserted at a drawn position, a single character of the suffix substituted, one member of suffix data or delta altered / removed / added and re-encoded canonically, the unchanged value in a non-canonical encoding (member order, whitespace, escapes), suffix of another create; oracle: resolves iff canonical, suffix == hash(suffix data), delta matches delta hash; non-trivial = an alteration")
 	ev.Rapid(t, chkLongForm, 500, 5000, func(t *rapid.T) {
 		cr := genCreate(t)
 		good := cr.LongForm(ns)
@@ -487,6 +495,10 @@ func TestLongFormAlterations(t *testing.T) {
 				t.Skip("same create drawn twice")
 			}
 			c.DID, c.Resolve = ns+":"+o.Suffix()+":"+seg, false
+		}
+		if variant != "control" && rapid.Bool().Draw(t, "handlerKnowsGenuine") {
+			// the same long-lived handler has resolved the genuine long-form DID just before
+			c.Warm = good
 		}
 		kind, msg := evalLF(c)
 		ev.Record(chkLongForm, !c.Resolve, ev.Hash(c.DID), "variant:"+variant)
